@@ -2,10 +2,9 @@
 # usage: ingest_round.sh <worktree> <suffix>  — validate and file a seeding agent's changes, run every claimed check against each, remove the worktree
 wt=$1; sfx=$2
 cd /verif
-python3 tools/ingest_seeded.py auto $wt $sfx 2>&1 | grep -E "KEEP|REJECT|INCOMPLETE" | cut -c1-200
-for d in $(ls $wt/_out); do
-  prop=$(grep -o -m1 'property: *C[0-9][0-9]' $wt/_out/$d/notes.md | grep -o 'C[0-9][0-9]')
-  id=$prop-$sfx$d
-  [ -d seeded/$id ] && python3 tools/run_mutants.py --only $id -v 2>&1 | grep -v "^{" | cut -c1-300 | head -8
+python3 tools/ingest_seeded.py auto $wt $sfx 2>&1 | grep -E "KEEP|REJECT|INCOMPLETE|filed as" | cut -c1-200 | tee /tmp/ingest_round.$$
+for id in $(grep "filed as" /tmp/ingest_round.$$ | awk '{print $3}'); do
+  python3 tools/run_mutants.py --only $id -v 2>&1 | grep -v "^{" | cut -c1-300 | head -8
 done
+rm -f /tmp/ingest_round.$$
 git -C /repo worktree remove --force $wt; git -C /repo worktree prune
